@@ -18,7 +18,8 @@ from vf.runner import Violation
 ID = "C16"
 LEVEL = "exploration"
 TECHNIQUE = "generated multi-instance request histories and interleavings (Hypothesis); differential against a solo replay of each instance's own requests"
-RULE = ("cases = (k instances with timeouts, per-instance request lists, merge order, clock advances, factory style); every response "
+RULE = ("cases = (k instances with timeouts, created one by one or by one /start-instances request, per-instance request lists, merge "
+        "order, clock advances, factory style incl. register_model; a quarter of the shards run every history in its own interpreter); every response "
         "(status and body) of every instance in the interleaved run must equal the corresponding response of the solo replay. "
         "non-trivial = two sessions are live at once with different settings and the merge order alternates A,B,A at least once; "
         "distinct by case")
@@ -55,6 +56,12 @@ def factory_for(style, made):
     def factory():
         from BPTK_Py import bptk
         b = bptk()
+        if style == "register-model":
+            # the documented one-liner: scenario manager and a scenario "base" are created by bptk
+            b.register_model(_mk_model(), scenario_manager=SM)
+            b.register_scenarios({"other": {"constants": {"k": 5.0}}}, SM)
+            made.append(b)
+            return b
         if style == "fresh":
             m = _mk_model()
         else:
@@ -68,7 +75,48 @@ def factory_for(style, made):
     return factory
 
 
-def run_history(events, timeouts, style, adapter=False):
+def run_isolated(events, timeouts, style, batch):
+    """run_history in a forked child of a process that has never run a history itself: nothing an earlier history
+    left behind in the interpreter (class attributes, default arguments, module globals) can reach this run"""
+    import os
+    import signal
+    r, w = os.pipe()
+    pid = os.fork()
+    if pid == 0:
+        code = 0
+        try:
+            os.close(r)
+            try:
+                evs = [tuple(e) if e[0] == "advance" else ("req", e[1], e[2]) for e in events]
+                res = {"out": run_history(evs, timeouts, style, batch=batch)}
+            except BaseException as e:
+                res = {"error": "%s: %s" % (type(e).__name__, e)}
+            data = json.dumps(res).encode()
+            with os.fdopen(w, "wb") as fh:
+                fh.write(data)
+        except BaseException:
+            code = 3
+        finally:
+            os._exit(code)
+    os.close(w)
+    try:
+        with os.fdopen(r, "rb") as fh:
+            data = fh.read()
+    finally:
+        try:
+            os.kill(pid, signal.SIGKILL)
+        except OSError:
+            pass
+        os.waitpid(pid, 0)
+    if not data:
+        raise RuntimeError("isolated run produced no result")
+    res = json.loads(data.decode())
+    if "error" in res:
+        raise RuntimeError(res["error"])
+    return {int(k): v for k, v in res["out"].items()}
+
+
+def run_history(events, timeouts, style, adapter=False, batch=0):
     """events: list of ("req", inst_index, request) / ("advance", micros).  returns per-instance response lists"""
     import BPTK_Py.externalstateadapter.externalStateAdapter as esa
     import BPTK_Py.server.bptkServer as srv
@@ -81,11 +129,18 @@ def run_history(events, timeouts, style, adapter=False):
     esa.datetime = shim
     made = []
     out = {}
+    _shared["ran"] = True
     try:
         app = BptkServer(__name__, bptk_factory=factory_for(style, made))
         app.logger.disabled = True
         client = app.test_client()
         ids = {}
+        if batch:
+            # all instances come from one /start-instances request
+            resp = client.post("/start-instances", json={"instances": batch, "timeout": timeouts[0]})
+            for i, iid in enumerate(json.loads(resp.data)["instance_uuids"]):
+                ids[i] = iid
+                out[i] = []
         for ev in events:
             if ev[0] == "advance":
                 clock.advance(ev[1])
@@ -142,8 +197,15 @@ def check_case(case):
     info = {"nontrivial": False}
     events = [tuple(e) if e[0] == "advance" else ("req", e[1], e[2]) for e in case["events"]]
     timeouts = case["timeouts"]
+    batch = len(timeouts) if case.get("start") == "batch" else 0
+    isolated = bool(case.get("isolated"))
+
+    def run(evs):
+        if isolated:
+            return run_isolated([list(e) for e in evs], timeouts, case["style"], batch)
+        return run_history(evs, timeouts, case["style"], batch=batch)
     try:
-        inter = run_history(events, timeouts, case["style"])
+        inter = run(events)
     except Exception as e:
         vs.append(Violation("crash:interleaved:" + type(e).__name__, "interleaved run raised %r" % (e,)))
         return info, vs
@@ -152,7 +214,7 @@ def check_case(case):
     # leaves this open): from that request on its responses are not compared
     limit = {}
     now = 0
-    last = {}
+    last = {i: 0 for i in range(batch)}
     count = {}
     for e in events:
         if e[0] == "advance":
@@ -165,14 +227,16 @@ def check_case(case):
         last[idx] = now
     for idx in insts:
         solo_events = [e for e in events if e[0] == "advance" or e[1] == idx]
-        solo = run_history(solo_events, timeouts, case["style"])
+        if not any(e[0] == "req" for e in solo_events):
+            continue
+        solo = run(solo_events)
         a, b = inter[idx], solo.get(idx, [])
         if idx in limit:
             a, b = a[:limit[idx]], b[:limit[idx]]
         if a != b:
             pos = next((i for i, (x, y) in enumerate(zip(a, b)) if x != y), min(len(a), len(b)))
             reqs = [e[2] for e in events if e[0] == "req" and e[1] == idx]
-            vs.append(Violation("differs-from-solo:%s:%s" % (reqs[pos][0] if pos < len(reqs) else "?", case["style"]),
+            vs.append(Violation("differs-from-solo:%s:%s%s" % (reqs[pos][0] if pos < len(reqs) else "?", case["style"], ":batch" if batch else ""),
                                 "instance %d request #%d %r: interleaved response %r, solo response %r; events %r"
                                 % (idx, pos, reqs[pos] if pos < len(reqs) else None, a[pos] if pos < len(a) else None, b[pos] if pos < len(b) else None,
                                    case["events"])))
@@ -185,11 +249,12 @@ def check_case(case):
     return info, vs
 
 
-def case_strategy():
+def case_strategy(isolated=False):
     @st.composite
     def build(draw):
         k = draw(st.integers(2, 3))
-        style = draw(st.sampled_from(["fresh", "shared-base"]))
+        style = draw(st.sampled_from(["fresh", "shared-base", "register-model"]))
+        start = draw(st.sampled_from(["single", "single", "batch"]))
         full = lambda **kw: dict({"weeks": 0, "days": 0, "hours": 0, "minutes": 0, "seconds": 0, "milliseconds": 0, "microseconds": 0}, **kw)
         timeouts = [draw(st.sampled_from([{"hours": 1}, {"minutes": 5}, {"seconds": 30}, {"milliseconds": 500},
                                           full(hours=1), full(minutes=5), full(seconds=30), full(milliseconds=500), full(days=1)])) for _ in range(k)]
@@ -204,6 +269,8 @@ def case_strategy():
             if "p" in w:
                 out["points"] = {"p": [[0.0, draw(st.sampled_from([0.0, 1.0, 5.0]))], [10.0, draw(st.sampled_from([2.0, 10.0, 20.0]))]]}
             return out
+        if start == "batch":
+            timeouts = [timeouts[0]] * k
         seqs = []
         for i in range(k):
             sc = draw(st.sampled_from([SC, "other"]))
@@ -232,7 +299,7 @@ def case_strategy():
             remaining -= 1
             if draw(st.integers(0, 5)) == 0:
                 events.append(["advance", draw(st.sampled_from([1000, 10 ** 6, 40 * 10 ** 6, 400 * 10 ** 6, 4000 * 10 ** 6]))])
-        return {"style": style, "timeouts": timeouts, "events": events}
+        return {"style": style, "start": start, "isolated": isolated, "timeouts": timeouts, "events": events}
     return build()
 
 
@@ -240,7 +307,8 @@ def _body(ctx):
     def body(case):
         info, vs = check_case(case)
         kinds = sorted(set("req:" + e[2][0] for e in case["events"] if e[0] == "req"))
-        ctx.case(case, nontrivial=info["nontrivial"], labels=["style:" + case["style"], "k:%d" % len(case["timeouts"])] + kinds +
+        ctx.case(case, nontrivial=info["nontrivial"], labels=["style:" + case["style"], "k:%d" % len(case["timeouts"]), "start:" + case.get("start", "single"),
+                                                              "isolated" if case.get("isolated") else "in-process"] + kinds +
                  (["has-advance"] if any(e[0] == "advance" for e in case["events"]) else []), key=case)
         ctx.report(vs)
     return body
@@ -248,8 +316,15 @@ def _body(ctx):
 
 def plan(tier):
     n = 40 if tier == "quick" else 500
-    return [{"n": n} for _ in range(16)]
+    # every run (interleaved and each solo replay) in its own freshly forked interpreter state; these shards come first
+    # so that they also start from a pristine process when all shards run in one process
+    specs = [{"n": n, "isolated": True} for _ in range(8)]
+    specs += [{"n": n} for _ in range(8)]
+    return specs
 
 
 def run_shard(spec, ctx):
-    ctx.hyp(case_strategy(), _body(ctx), spec["n"])
+    if spec.get("isolated") and _shared.get("ran"):
+        from vf.runner import HarnessError
+        raise HarnessError("isolated shard scheduled in a process that already ran histories")
+    ctx.hyp(case_strategy(bool(spec.get("isolated"))), _body(ctx), spec["n"])
